@@ -31,6 +31,7 @@ KINDS = {
     'addr': (['ver', 'val'], ['val']),
     'net': (['ver', 'val', 'plen'], ['val', 'plen']),
     'eui': (['ver', 'val'], ['val']),
+    'rng': (['ver', 'lo', 'hi'], []),
     None: ([], []),
 }
 
@@ -70,7 +71,18 @@ FUNCS = [
     dict(name='IPNetwork_isub', tie='NV.Tie.net_isub', prop='C11', file='ip/__init__.py', cls='IPNetwork', func='__isub__', kind='net', params=[('num', 'int')], ret='self'),
     dict(name='IPNetwork_ipv6', tie='NV.Tie.net_ipv6', prop='C16', file='ip/__init__.py', cls='IPNetwork', func='ipv6', kind='net', params=[('ipv4_compatible', 'bool')], ret='opt_ctor3'),
     dict(name='IPNetwork_sort_key', tie='NV.Tie.net_sort_key', prop='C12', file='ip/__init__.py', cls='IPNetwork', func='sort_key', kind='net', params=[], ret='tuple4'),
+    # `x in y`: one translation per operand class (isinstance tests are decided by the declared class)
+    dict(name='IPNetwork_contains_addr', tie='NV.Tie.net_contains_addr', prop='C04', file='ip/__init__.py', cls='IPNetwork', func='__contains__', kind='net', params=[('other', 'obj:addr')], ret='bool'),
+    dict(name='IPNetwork_contains_net', tie='NV.Tie.net_contains_net', prop='C04', file='ip/__init__.py', cls='IPNetwork', func='__contains__', kind='net', params=[('other', 'obj:net')], ret='bool'),
+    dict(name='IPNetwork_contains_rng', tie='NV.Tie.net_contains_rng', prop='C04', file='ip/__init__.py', cls='IPNetwork', func='__contains__', kind='net', params=[('other', 'obj:rng')], ret='bool'),
+    dict(name='IPRange_contains_addr', tie='NV.Tie.rng_contains_addr', prop='C04', file='ip/__init__.py', cls='IPRange', func='__contains__', kind='rng', params=[('other', 'obj:addr')], ret='bool'),
+    dict(name='IPRange_contains_net', tie='NV.Tie.rng_contains_net', prop='C04', file='ip/__init__.py', cls='IPRange', func='__contains__', kind='rng', params=[('other', 'obj:net')], ret='bool'),
+    dict(name='IPRange_contains_rng', tie='NV.Tie.rng_contains_rng', prop='C04', file='ip/__init__.py', cls='IPRange', func='__contains__', kind='rng', params=[('other', 'obj:rng')], ret='bool'),
 ]
+
+# class of an object operand -> the classes isinstance() says yes to
+ISA = {'addr': {'BaseIP', 'IPAddress'}, 'net': {'BaseIP', 'IPNetwork', 'IPListMixin'}, 'rng': {'BaseIP', 'IPRange', 'IPListMixin'}}
+OBJ_FIELDS = {'addr': ['ver', 'val'], 'net': ['ver', 'val', 'plen'], 'rng': ['ver', 'lo', 'hi']}
 
 CTOR_NAMES = {'IPAddress', 'IPNetwork', 'klass', 'EUI'}
 
@@ -98,6 +110,7 @@ class Ctx:
         self.params = dict(spec['params'])
         self.ctor_alias = set(CTOR_NAMES)
         self.bools = {p for p, t in spec['params'] if t == 'bool'}
+        self.objs = {p: t[4:] for p, t in spec['params'] if t.startswith('obj:')}
         self.opts = set()           # local variables holding Optional constructor results
         self.loops = []             # auxiliary loop definitions (text)
         self.nloops = 0
@@ -148,6 +161,26 @@ def intrinsic(ctx, e):
             return '((maxInt ver : Nat) : Int)'
         if ch[1:] in (['_module', 'version'], ['version']):
             return '((ver : Nat) : Int)'
+        if ch[1:] == ['_start', '_value'] and ctx.kind == 'rng':
+            return 'lo'
+        if ch[1:] == ['_end', '_value'] and ctx.kind == 'rng':
+            return 'hi'
+    if ch[0] in ctx.objs:
+        k, o = ctx.objs[ch[0]], ch[0]
+        if ch[1:] == ['_value'] and k in ('addr', 'net'):
+            return '%s_val' % o
+        if ch[1:] == ['_prefixlen'] and k == 'net':
+            return '%s_plen' % o
+        if ch[1:] == ['_start', '_value'] and k == 'rng':
+            return '%s_lo' % o
+        if ch[1:] == ['_end', '_value'] and k == 'rng':
+            return '%s_hi' % o
+        if ch[1:] == ['_module', 'width']:
+            return '((width %s_ver : Nat) : Int)' % o
+        if ch[1:] == ['_module', 'max_int']:
+            return '((maxInt %s_ver : Nat) : Int)' % o
+        if ch[1:] == ['_module', 'version']:
+            return '((%s_ver : Nat) : Int)' % o
     if ch in (['_ipv4', 'max_int'],):
         return '((maxInt 4 : Nat) : Int)'
     if ch in (['_ipv4', 'width'],):
@@ -240,8 +273,19 @@ def ival(ctx, e):
     raise Untranslatable('integer expression %s' % ast.dump(e)[:80])
 
 
+def static_test(ctx, e):
+    """True / False when the test is `isinstance(<object operand>, <class>)`, else None"""
+    if isinstance(e, ast.Call) and isinstance(e.func, ast.Name) and e.func.id == 'isinstance' and len(e.args) == 2 \
+            and isinstance(e.args[0], ast.Name) and e.args[0].id in ctx.objs and isinstance(e.args[1], ast.Name):
+        return e.args[1].id in ISA[ctx.objs[e.args[0].id]]
+    return None
+
+
 def prop(ctx, e):
     """Lean term of type Prop (decidable)"""
+    st = static_test(ctx, e)
+    if st is not None:
+        return 'True' if st else 'False'
     if isinstance(e, ast.Compare):
         terms = [e.left] + list(e.comparators)
         parts = []
@@ -395,6 +439,9 @@ def block(ctx, stmts, ind, loop=None):
                 return '%smatch %s with\n%s| .error e => .error e\n%s| .ok %s =>\n%s' % (pad, t, pad, pad, v, block(ctx, rest, ind + 1, loop))
         return '%slet %s : Int := %s\n%s' % (pad, v, ival(ctx, val), block(ctx, rest, ind, loop))
     if isinstance(s, ast.If):
+        st = static_test(ctx, s.test)
+        if st is not None:
+            return block(ctx, (list(s.body) if st else list(s.orelse)) + rest, ind, loop)
         a = block(ctx, list(s.body) + rest, ind + 1, loop)
         b = block(ctx, list(s.orelse) + rest, ind + 1, loop)
         return '%sif %s then\n%s\n%selse\n%s' % (pad, prop(ctx, s.test), a, pad, b)
@@ -410,10 +457,10 @@ def block(ctx, stmts, ind, loop=None):
         # variables live in the loop: the ones the body assigns (all Int)
         selfp = ' '.join('(%s : %s)' % (f, 'Nat' if f == 'ver' else 'Int') for f in KINDS[ctx.kind][0])
         par = ' '.join('(%s : Int)' % v for v in lv)
-        extra = ' '.join('(%s : %s)' % (p, 'Bool' if t == 'bool' else 'Int') for p, t in ctx.spec['params'])
+        extra = ' '.join(param_binders(ctx.spec))
         rt = ret_type(ctx.spec)
         rt = 'R (%s)' % rt if ctx.spec['_raises'] else rt
-        call_vars = KINDS[ctx.kind][0] + [p for p, _ in ctx.spec['params']] + lv
+        call_vars = KINDS[ctx.kind][0] + param_names(ctx.spec) + lv
         after = block(ctx, rest, 2, loop)
         body = block(ctx, list(s.body), 3, (lname, call_vars, rest, loop))
         ctx.loops.append(
@@ -430,9 +477,29 @@ def has_raise(fn, ctx_table, spec):
     return False
 
 
+def param_binders(spec):
+    out = []
+    for p, t in spec['params']:
+        if t.startswith('obj:'):
+            out += ['(%s_%s : %s)' % (p, f, 'Nat' if f == 'ver' else 'Int') for f in OBJ_FIELDS[t[4:]]]
+        else:
+            out.append('(%s : %s)' % (p, 'Bool' if t == 'bool' else 'Int'))
+    return out
+
+
+def param_names(spec):
+    out = []
+    for p, t in spec['params']:
+        if t.startswith('obj:'):
+            out += ['%s_%s' % (p, f) for f in OBJ_FIELDS[t[4:]]]
+        else:
+            out.append(p)
+    return out
+
+
 def signature(spec):
     ps = ['(%s : %s)' % (f, 'Nat' if f == 'ver' else 'Int') for f in KINDS[spec['kind']][0]]
-    ps += ['(%s : %s)' % (p, 'Bool' if t == 'bool' else 'Int') for p, t in spec['params']]
+    ps += param_binders(spec)
     rt = ret_type(spec)
     if spec['_raises']:
         rt = 'R (%s)' % rt
